@@ -88,6 +88,12 @@ var execPkgs = map[string]bool{
 	"strings":            true,
 	"unicode":            true,
 	"iter":               true,
+	"sort":               true,
+	"math":               true,
+	"container/list":     true,
+	"unicode/utf16":      true,
+	"internal/stringslite": true,
+	"internal/bytealg":   false,
 }
 
 // Individual functions of other packages executed from SSA.
